@@ -9,7 +9,10 @@ import (
 	"fmt"
 	"math/big"
 	"math/rand/v2"
+	"sort"
 	"strings"
+	"sync"
+	"time"
 
 	"cuelang.org/go/cue"
 	"cuelang.org/go/cue/cuecontext"
@@ -170,6 +173,27 @@ func absInt(n int) int {
 	}
 	return n
 }
+
+var (
+	c6rangeMu    sync.Mutex
+	c6rangeCases [][2]string
+)
+
+func init() {
+	batchOps["c06json"] = func(cs bcase) map[string]any {
+		v := cuecontext.New().CompileString(cs.Src).LookupPath(cue.ParsePath("x"))
+		if err := v.Err(); err != nil {
+			return map[string]any{"err": err.Error()}
+		}
+		b, err := v.MarshalJSON()
+		if err != nil {
+			return map[string]any{"err": err.Error()}
+		}
+		return map[string]any{"json": string(b)}
+	}
+}
+
+const c6imports2 = "import (\n\t\"math\"\n\t\"list\"\n\t\"strconv\"\n)\n_u: [math.Abs, list.Sum, strconv.Atoi]\n"
 
 type c6case struct {
 	expr  string
@@ -573,6 +597,185 @@ func c6builtins(r *rand.Rand, out *[]c6case) {
 	}
 }
 
+// c6bigNum: a number with many integer digits, optionally a fraction, or in exponent notation.
+func c6bigNum(r *rand.Rand) string {
+	switch r.IntN(8) {
+	case 0:
+		return fmt.Sprintf("%s1e%d", []string{"", "-"}[r.IntN(2)], 30+r.IntN(20))
+	case 1:
+		return fmt.Sprintf("%s%d.%de%d", []string{"", "-"}[r.IntN(2)], 1+r.IntN(9), r.IntN(1000), 30+r.IntN(20))
+	case 2:
+		return fmt.Sprintf("%s%de-%d", []string{"", "-"}[r.IntN(2)], 1+r.IntN(9), 30+r.IntN(20))
+	case 3:
+		return c6boundaries[r.IntN(len(c6boundaries))]
+	}
+	x := c6randInt(r, []int{34, 35, 36, 40, 60, 120}[r.IntN(6)])
+	if r.IntN(2) == 0 {
+		x += "." + []string{"5", "0", "25", "75", "000000000000000000000000000000000001", "999999", "50000000001", "4999999999"}[r.IntN(8)]
+	}
+	return x
+}
+
+// c6builtins2: rounding builtins on numbers of more than 34 digits, and the builtins whose results are integers
+// however many digits it takes (list.Sum/Product/Max/Min/Range/Sort, strconv.Atoi/FormatInt/ParseInt,
+// math.MultipleOf), list.Avg (one correctly rounded division) and math.Pow with integer arguments.
+func c6builtins2(r *rand.Rand, out *[]c6case) {
+	x := c6bigNum(r)
+	rx := c6rat(x)
+	floor := new(big.Int).Div(rx.Num(), rx.Denom())
+	ceil := new(big.Int).Set(floor)
+	if !rx.IsInt() {
+		ceil.Add(ceil, big.NewInt(1))
+	}
+	trunc := new(big.Int).Quo(rx.Num(), rx.Denom())
+	round := new(big.Int)
+	{
+		ax := new(big.Rat).Abs(rx)
+		fl := new(big.Int).Div(ax.Num(), ax.Denom())
+		if new(big.Rat).Sub(ax, new(big.Rat).SetInt(fl)).Cmp(big.NewRat(1, 2)) >= 0 {
+			fl.Add(fl, big.NewInt(1))
+		}
+		if rx.Sign() < 0 {
+			fl.Neg(fl)
+		}
+		round = fl
+	}
+	exactInt := func(expr, class string, want *big.Int) {
+		*out = append(*out, c6case{expr: expr, class: class, check: func(v cue.Value) (bool, string) {
+			if err := v.Err(); err != nil {
+				return false, "error: " + err.Error()
+			}
+			got, gs, ok := c6value(v)
+			if !ok {
+				return false, "unparsable " + gs
+			}
+			if got.Cmp(new(big.Rat).SetInt(want)) != 0 {
+				return false, fmt.Sprintf("got %s want %s", gs, want)
+			}
+			return true, ""
+		}})
+	}
+	exactInt(fmt.Sprintf("math.Floor(%s)", x), "builtin-big-Floor", floor)
+	exactInt(fmt.Sprintf("math.Ceil(%s)", x), "builtin-big-Ceil", ceil)
+	exactInt(fmt.Sprintf("math.Trunc(%s)", x), "builtin-big-Trunc", trunc)
+	exactInt(fmt.Sprintf("math.Round(%s)", x), "builtin-big-Round", round)
+	abs := new(big.Rat).Abs(rx)
+	*out = append(*out, c6case{expr: fmt.Sprintf("math.Abs(%s)", x), class: "builtin-big-Abs", check: func(v cue.Value) (bool, string) {
+		if err := v.Err(); err != nil {
+			return false, "error: " + err.Error()
+		}
+		got, gs, ok := c6value(v)
+		if !ok || got.Cmp(abs) != 0 {
+			return false, fmt.Sprintf("got %s want %s", gs, abs.FloatString(40))
+		}
+		return true, ""
+	}})
+	// integer lists
+	n := 2 + r.IntN(3)
+	var xs []string
+	var is []*big.Int
+	for i := 0; i < n; i++ {
+		t := c6randInt(r, []int{3, 18, 34, 35, 40, 60}[r.IntN(6)])
+		if r.IntN(4) == 0 {
+			t = c6boundaries[r.IntN(len(c6boundaries))]
+		}
+		xs = append(xs, t)
+		bi, _ := new(big.Int).SetString(t, 10)
+		is = append(is, bi)
+	}
+	list := "[" + strings.Join(xs, ", ") + "]"
+	sum, prod := new(big.Int), big.NewInt(1)
+	max, min := new(big.Int).Set(is[0]), new(big.Int).Set(is[0])
+	for _, i := range is {
+		sum.Add(sum, i)
+		prod.Mul(prod, i)
+		if i.Cmp(max) > 0 {
+			max.Set(i)
+		}
+		if i.Cmp(min) < 0 {
+			min.Set(i)
+		}
+	}
+	exactInt("list.Sum("+list+")", "builtin-list.Sum", sum)
+	exactInt("list.Product("+list+")", "builtin-list.Product", prod)
+	exactInt("list.Max("+list+")", "builtin-list.Max", max)
+	exactInt("list.Min("+list+")", "builtin-list.Min", min)
+	avg := new(big.Rat).SetFrac(sum, big.NewInt(int64(n)))
+	*out = append(*out, c6case{expr: "list.Avg(" + list + ")", class: "builtin-list.Avg", check: func(v cue.Value) (bool, string) {
+		if err := v.Err(); err != nil {
+			return false, "error: " + err.Error()
+		}
+		got, gs, ok := c6value(v)
+		if !ok || !c6roundedOK(got, avg, c6prec) {
+			return false, fmt.Sprintf("got %s, exact average %s is not rounded correctly to %d digits", gs, avg.FloatString(50), c6prec)
+		}
+		return true, ""
+	}})
+	// list.Range over big integers: start, start+step, ... (k elements)
+	{
+		start := is[0]
+		step := big.NewInt(int64(1 + r.IntN(3)))
+		if r.IntN(3) == 0 {
+			step.Neg(step)
+		}
+		k := 1 + r.IntN(4)
+		limit := new(big.Int).Add(start, new(big.Int).Mul(step, big.NewInt(int64(k))))
+		var want []string
+		for i := 0; i < k; i++ {
+			want = append(want, new(big.Int).Add(start, new(big.Int).Mul(step, big.NewInt(int64(i)))).String())
+		}
+		ws := "[" + strings.Join(want, ",") + "]"
+		// evaluated in worker processes (watchdog, address-space limit): with rounded additions the loop of Range
+		// does not terminate
+		c6rangeMu.Lock()
+		c6rangeCases = append(c6rangeCases, [2]string{fmt.Sprintf("list.Range(%s, %s, %s)", start, limit, step), ws})
+		c6rangeMu.Unlock()
+	}
+	// strconv round trip and math.MultipleOf on big integers
+	exactInt(fmt.Sprintf("strconv.Atoi(strconv.FormatInt(%s, 10))", xs[0]), "builtin-strconv", is[0])
+	exactInt(fmt.Sprintf("strconv.ParseInt(strconv.FormatInt(%s, %d), %d, 0)", xs[0], 2+r.IntN(35), 0), "builtin-strconv-skip", is[0])
+	(*out) = (*out)[:len(*out)-1] // (ParseInt with bitSize 0 limits to 64 bits: not part of the statement)
+	{
+		a, b := is[0], is[1]
+		if r.IntN(2) == 0 && b.Sign() != 0 {
+			a = new(big.Int).Mul(b, big.NewInt(int64(r.IntN(2000)-1000)))
+		}
+		if r.IntN(3) == 0 {
+			b = big.NewInt(int64(1 + r.IntN(9)))
+		}
+		if b.Sign() != 0 {
+			want := new(big.Int).Rem(a, b).Sign() == 0
+			*out = append(*out, c6case{expr: fmt.Sprintf("math.MultipleOf(%s, %s)", a, b), class: "builtin-big-MultipleOf", check: c6wantBool(want)})
+		}
+	}
+	// math.Pow with integer arguments: exact up to 34 digits; beyond that the pinned tree rounds (recorded finding)
+	{
+		base := int64(r.IntN(25) - 12)
+		exp := int64(r.IntN(45))
+		if base == 0 && exp == 0 {
+			exp = 1
+		}
+		want := new(big.Int).Exp(big.NewInt(base), big.NewInt(exp), nil)
+		wr := new(big.Rat).SetInt(want)
+		*out = append(*out, c6case{expr: fmt.Sprintf("math.Pow(%d, %d)", base, exp), class: "builtin-Pow", key: "C06|builtin-int-exactness|math.Pow", check: func(v cue.Value) (bool, string) {
+			if err := v.Err(); err != nil {
+				return false, "error: " + err.Error()
+			}
+			got, gs, ok := c6value(v)
+			if !ok {
+				return false, "unparsable " + gs
+			}
+			if got.Cmp(wr) == 0 {
+				return true, ""
+			}
+			if c6sigDigits(wr) > c6prec && c6roundedOK(got, wr, c6prec) {
+				return false, fmt.Sprintf("KNOWN-CLASS: integer power rounded to %d digits: got %s, exact %s", c6prec, gs, want)
+			}
+			return false, fmt.Sprintf("got %s want %s", gs, want)
+		}})
+	}
+}
+
 func c6strCases(r *rand.Rand, out *[]c6case) {
 	pool := []string{"", "a", "A", "ab", "b", "aa", "é", "z", "\U0001F600", "a\x00", "￿", "\U00010000", "~", " "}
 	x, y := pool[r.IntN(len(pool))], pool[r.IntN(len(pool))]
@@ -627,7 +830,7 @@ func c6operand(r *rand.Rand) string {
 
 func init() {
 	register("C06", "exploration", func(c *Ctx) {
-		c.Rule = "operand pairs: exhaustive small set (signs, 0, ±1..3, halves, boundaries 2^53/2^63/2^64/10^34±1/2^127/2^128) × same set, plus PRNG integers (1-300 digits, runs of 9/0) and decimals (with exponents); per pair: + - * / (big.Rat oracle: exact, resp. correctly rounded to 34 digits), div/mod/quo/rem (big.Int Euclidean/truncated) and the identities evaluated in CUE, six comparisons; order axioms on triples; string/bytes comparisons bytewise; number literals generated from the spec grammar with their exact value (all bases, '_', SI/IEC multipliers with fractions truncated toward zero, exponents) incl. print→read through Syntax+format and MarshalJSON; math.Floor/Ceil/Trunc/Round/Abs/MultipleOf. One compile per batch of ~200 expressions. Non-trivial = distinct expression whose operands are not both single-digit."
+		c.Rule = "operand pairs: exhaustive small set (signs, 0, ±1..3, halves, boundaries 2^53/2^63/2^64/10^34±1/2^127/2^128) × same set, plus PRNG integers (1-300 digits, runs of 9/0) and decimals (with exponents); per pair: + - * / (big.Rat oracle: exact, resp. correctly rounded to 34 digits), div/mod/quo/rem (big.Int Euclidean/truncated) and the identities evaluated in CUE, six comparisons (also with zeros that come out of computations such as 0 * -1, whose decimal carries a sign); order axioms on triples; string/bytes comparisons bytewise; number literals generated from the spec grammar with their exact value (all bases, '_', SI/IEC multipliers with fractions truncated toward zero, exponents) incl. print→read through Syntax+format and MarshalJSON; math.Floor/Ceil/Trunc/Round/Abs/MultipleOf on small and on > 34-digit / exponent-notation operands; list.Sum/Product/Max/Min/Range and strconv.Atoi∘FormatInt on integers of up to 60 digits (exact), list.Avg (one correctly rounded division), math.Pow with integer arguments. One compile per batch of ~200 expressions. Non-trivial = distinct expression whose operands are not both single-digit."
 		c.Assume = []string{"documented precision of / is 34 significant digits (internal.BaseContext); nearest rounding, ties either way", "math.Round rounds half away from zero (package doc)"}
 		if c.Replay != nil {
 			expr, _ := c.Replay["expr"].(string)
@@ -665,6 +868,34 @@ func init() {
 			}
 			c6runBatch(c, cuecontext.New(), cases, "")
 		}
+		// 1c. zeros that come out of a computation (possibly with the sign bit set: 0 * -1, -7 * 0) compared with
+		//     every small operand: a zero is a zero whatever its history
+		{
+			zeros := []string{"(0 * -1)", "(-7 * 0)", "(0 * -3 * 5)", "(3 - 3)", "(-0)", "(-0.0)", "(0.0 * -1)", "(0 * -1.5)", "(-1 * 0 * -1 * -1)", "(0 / -1)", "div(0, -1)", "rem(0, -3)", "quo(0, -3)", "mod(0, 3)", "quo(0 * -1, 3)", "rem(0 * -1, 3)", "(-(0 * -1))", "(0 * -1 + 0)", "(0 * -1 - 0)"}
+			var cases []c6case
+			zero := new(big.Rat)
+			for _, z := range zeros {
+				for _, y := range small {
+					ry := c6rat(y)
+					cmp := zero.Cmp(ry)
+					for _, op := range []string{"<", "<=", "==", "!=", ">=", ">"} {
+						want := map[string]bool{"<": cmp < 0, "<=": cmp <= 0, "==": cmp == 0, "!=": cmp != 0, ">=": cmp >= 0, ">": cmp > 0}[op]
+						cases = append(cases, c6case{expr: z + " " + op + " " + y, class: "cmp-computed-zero", check: c6wantBool(want)})
+						wantR := map[string]bool{"<": cmp > 0, "<=": cmp >= 0, "==": cmp == 0, "!=": cmp != 0, ">=": cmp <= 0, ">": cmp < 0}[op]
+						cases = append(cases, c6case{expr: y + " " + op + " " + z, class: "cmp-computed-zero", check: c6wantBool(wantR)})
+					}
+					c.Nontrivial("zero|" + z + "|" + y)
+				}
+				// as a value checked against bounds, and against another computed zero
+				cases = append(cases, c6case{expr: "(>=0 & <=0 & " + z + ") == 0", class: "cmp-computed-zero", check: c6wantBool(true)})
+				cases = append(cases, c6case{expr: "(" + z + " & 0) != _|_ || (" + z + " & 0.0) != _|_", class: "cmp-computed-zero", check: c6wantBool(true)})
+				for _, z2 := range zeros {
+					cases = append(cases, c6case{expr: z + " == " + z2, class: "cmp-computed-zero", check: c6wantBool(true)})
+					cases = append(cases, c6case{expr: z + " < " + z2, class: "cmp-computed-zero", check: c6wantBool(false)})
+				}
+			}
+			c6runBatch(c, cuecontext.New(), cases, "")
+		}
 		// 2. random pairs
 		nPairs := c.N(2500, 120000)
 		batches := 64
@@ -695,6 +926,7 @@ func init() {
 			ctx := cuecontext.New()
 			var cases []c6case
 			var mcases []c6case
+			var bcases []c6case
 			for k := 0; k < nOther/batches; k++ {
 				// triple: transitivity as evaluated by the implementation
 				x, y, z := c6operand(r), c6operand(r), c6operand(r)
@@ -750,7 +982,10 @@ func init() {
 					c.Sample(map[string]any{"literal": lit, "value": val.FloatString(6), "int": isInt})
 				}
 				c6builtins(r, &mcases)
+				c6builtins2(r, &bcases)
 				if len(cases) > 200 {
+					c6runBatch(c, ctx, bcases, c6imports2)
+					bcases = bcases[:0]
 					c6runBatch(c, ctx, cases, "")
 					cases = cases[:0]
 					c6runBatch(c, ctx, mcases, "import \"math\"\n")
@@ -759,6 +994,39 @@ func init() {
 			}
 			c6runBatch(c, ctx, cases, "")
 			c6runBatch(c, ctx, mcases, "import \"math\"\n")
+			c6runBatch(c, ctx, bcases, c6imports2)
 		})
+		// 4. list.Range over big integers, in worker processes
+		{
+			c6rangeMu.Lock()
+			rc := c6rangeCases
+			c6rangeCases = nil
+			c6rangeMu.Unlock()
+			sort.Slice(rc, func(i, j int) bool { return rc[i][0] < rc[j][0] })
+			var cases []bcase
+			for i, x := range rc {
+				cases = append(cases, bcase{ID: fmt.Sprint(i), Op: "c06json", Src: "import \"list\"\nx: " + x[0] + "\n"})
+			}
+			if c.ASLimitKB == 0 {
+				c.ASLimitKB = 4 << 20
+			}
+			res := c.RunBatch(cases, 20*time.Second)
+			for i, x := range rc {
+				c.Eval(1)
+				c.Count("class:builtin-list.Range", 1)
+				r := res[fmt.Sprint(i)]
+				key := "C06|builtin-list.Range|" + x[0]
+				switch {
+				case r == nil:
+					c.Count("range_case_missing", 1)
+				case r.Status != "ok":
+					c.Violate(key, fmt.Sprintf("builtin-list.Range: %s does not finish (%s within 20 s / 4 GiB): %s", x[0], r.Status, trunc9(r.Crash, 300)), map[string]any{"expr": x[0]})
+				case r.Out["err"] != nil:
+					c.Violate(key, fmt.Sprintf("builtin-list.Range: %s  →  error: %v", x[0], r.Out["err"]), map[string]any{"expr": x[0]})
+				case r.Out["json"] != x[1]:
+					c.Violate(key, fmt.Sprintf("builtin-list.Range: %s  →  got %v want %s", x[0], r.Out["json"], x[1]), map[string]any{"expr": x[0]})
+				}
+			}
+		}
 	})
 }
